@@ -327,6 +327,7 @@ def truth(ctx, st, x):
 TRANSPARENT_DECORATORS = {"staticmethod", "classmethod", "property", "contextlib.contextmanager", "contextmanager", "_checks_drafts",
                           "attr.s", "attr.attrs", "validates", "functools.wraps", "wraps"}
 
+CONTRACTS_USED = set()  # callee contracts applied in this process since the last reset (each must be proved by some task of the check)
 UNITS_READ = set()      # every function body executed in this process since the last reset (cache validation, pyvc/driver.py)
 
 
@@ -1107,6 +1108,7 @@ class Interp:
     def call_func(self, st, f, args, kwargs, node=None):
         c = self.ctx.contracts.get(f.key)
         if c is not None and not self.ctx.config.get("inline_only", {}).get(f.key):
+            CONTRACTS_USED.add(f.key)
             return c.apply(self, st, args, kwargs, f)
         unit = self.repo.units.get(f.key)
         if unit is None:
